@@ -314,6 +314,31 @@ def dispersive_leaf(ctx, lentil, rng):
     return n
 
 
+def shared_pixel_leaf(ctx, lentil):
+    """segment masks that share edge samples (what hex_segments yields by default for small gaps once binarised): where the OPD holds no
+    tilt at all (a piston), fitting tilt must leave OPD-plus-recorded-tilt - here simply the OPD - as it was, shared samples included"""
+    n = 0
+    for rings, R, gap in ((1, 16, 1), (1, 11, 0), (2, 9, 0.5)):
+        masks = lentil.hex_segments(rings=rings, seg_radius=R, seg_gap=gap)
+        binm = (np.asarray(masks) != 0)
+        shared = int((binm.sum(axis=0) > 1).sum())
+        if shared == 0:
+            continue
+        opd = np.full(masks.shape[1:], 150e-9)
+        for inplace in (False, True):
+            p = lentil.Pupil(amplitude=masks.sum(axis=0), opd=opd.copy(), mask=masks, pixelscale=1e-3, focal_length=3.0)
+            pf = p.fit_tilt(inplace=inplace)
+            n += 1
+            inside = binm.any(axis=0)
+            ctx.case(('shared-pixels', rings, R, gap, inplace))
+            dev = float(np.abs((np.asarray(pf.opd) - 150e-9)[inside]).max())
+            tilts = max(max(abs(t.x), abs(t.y)) for t in pf.tilt) if pf.tilt else 0.0
+            if dev > 1e-12 or tilts > 1e-12:
+                ctx.violation({'kind': 'fit-tilt-on-shared-segment-samples', 'inplace': inplace},
+                              {'rings': rings, 'seg_radius': R, 'seg_gap': gap, 'samples_in_two_masks': shared, 'max_opd_change_m': dev, 'max_recorded_tilt': tilts}, case=None)
+    return n
+
+
 def sig_of(c, k, kind):
     return {'kind': kind, 'scenario': c['kind'], 'rep': c['rep'].split('-')[0] if c['rep'].startswith('order') else c['rep'],
             'nonsquare_px': c['nonsquare'], 'step_op': c['steps'][k]['op']}
@@ -368,6 +393,7 @@ def run(ctx):
                                'max_abs_diff': float(np.abs(f1[both] - f2[both]).max())},
                               case={'case': c1, 'spec': spec[c1['id']]})
     nleaf = dispersive_leaf(ctx, lentil, rng)
+    ctx.extra['shared_segment_sample_cases'] = shared_pixel_leaf(ctx, lentil)
     ctx.traces += len(cases) - nthm
     ctx.extra['higher_order_dispersive_leaf_cases'] = nleaf
     ctx.extra.update({'scenarios': nsc, 'shift_theorem_cases': nthm, 'cross_comparisons': ncross})
